@@ -88,6 +88,7 @@ def run_check(prop, tier, jobs):
     tasks = []
     builts = {}
     build_errors = []
+    compile_violations = []
     all_spec_names = set(); found_names = set()
     try:
         for cn in cfgs:
@@ -96,7 +97,11 @@ def run_check(prop, tier, jobs):
             try:
                 b = verif.build(cn, wd)
             except Exception as e:
-                build_errors.append('%s: extraction failed: %s' % (cn, str(e)[:500]))
+                if CONFIGS[cn].get('compile_obligation') == prop and 'clang failed' in str(e):
+                    # the instantiation TU of a minimal-requirement archetype does not compile: the header demands more than documented
+                    compile_violations.append((cn, str(e)))
+                else:
+                    build_errors.append('%s: extraction failed: %s' % (cn, str(e)[:500]))
                 continue
             builts[cn] = b
             if plan is not None:
@@ -173,6 +178,13 @@ def run_check(prop, tier, jobs):
             printed.add(key)
             print('KNOWN-FINDING: property=%s %s [%s]' % (prop, kf['what'], kf['id']))
         vio_paths = []
+        for cn, msg in compile_violations:
+            os.makedirs(os.path.join(ROOT, 'replays'), exist_ok=True)
+            path = os.path.join(ROOT, 'replays', '%s-%s-does-not-instantiate.json' % (prop, cn))
+            json.dump({'property': prop, 'configuration': cn, 'failed_obligation': 'instantiation TU %s compiles' % CONFIGS[cn]['tu'], 'compiler_output': msg[-6000:]}, open(path, 'w'), indent=1)
+            print('VIOLATION property=%s replay=%s no-failing-input-found' % (prop, path))
+            print('  configuration %s (%s) does not instantiate: the header requires more of the element type than the operations used document' % (cn, CONFIGS[cn]['tu']))
+            exit_code = 1
         for r, f in violations:
             # a trace for the replay file (bounded size), obtained by re-running the one property
             extra = {'solver_output': None, 'native_replay': None}
@@ -205,7 +217,7 @@ def run_check(prop, tier, jobs):
             },
             'assumptions': ASSUMPTIONS,
             'wall_s': round(time.time() - t0, 1),
-            'violations': len(violations),
+            'violations': len(violations) + len(compile_violations),
         }
         if obligations == 0 and exit_code == 0:
             print('UNDECIDED: no obligation tagged %s was generated' % prop)
